@@ -35,7 +35,7 @@ pub enum Case {
     /// r0, r1 in lattice units k; kind decides d; pose: quarter turns + lattice translation (exact) or a general isometry
     Pair { kind: PairKind, k: f64, a: u8, b: u8, f: f64, quarter: u8, shift: (i32, i32), pose: Option<Iso2D> },
     TangentPoint { c: P2, r: f64, ratio_exp: f64, ang: f64 },
-    Line { c: P2, r: f64, dist_rel: f64, dir_ang: f64, dir_len: f64, along: f64, seg: (f64, f64), exact_tangent: bool },
+    Line { c: P2, r: f64, dist_rel: f64, dir_ang: f64, dir_len: f64, along: f64, seg: (f64, f64), exact_tangent: bool, #[serde(default)] tangent_at: Option<f64> },
     CurveCircle { spec: Curve2Spec, c: P2, r: f64 },
     Project { c: P2, r: f64, p: P2 },
     Arc3 { p0: P2, p1: P2, p2: P2, collinear: bool, #[serde(default = "one")] scale: f64 },
@@ -59,21 +59,21 @@ impl Property for C11 {
     type Case = Case;
     const ID: &'static str = "C11";
     fn rule() -> &'static str {
-        "families: circle pairs parameterised by relative position (far, just outside, exactly externally tangent via 3-4-5 lattice constructions, crossing, exactly internally tangent, nested, concentric, equal radii) posed by exact quarter turns + lattice shifts or a general isometry (centres up to 1e3); external points at d/r = 1 + 10^[-6,3]; lines at any distance incl. exactly tangent, unit and non-unit directions, segments; curve x circle; point triples in general position and exactly collinear; arcs with any centre, start angle in +-4pi and sweep in [-2pi, 2pi] incl. +-2pi, multiples of pi/2 and +-1e-9. Oracle: the defining constraints (on both objects, count by configuration, perpendicular radius, documented left/right order, bounding box contains and touches). Non-trivial: neither circle centred at the origin and r/d farther than 0.05 from 1/sqrt 2. Distinct = distinct canonical JSON."
+        "families: circle pairs parameterised by relative position (far, just outside, exactly externally tangent via 3-4-5 lattice constructions, crossing, exactly internally tangent, nested, concentric, equal radii) posed by exact quarter turns + lattice shifts or a general isometry (centres up to 1e3); external points at d/r = 1 + 10^[-6,3]; lines at any distance incl. exactly tangent (axis-parallel on a lattice, and in a general direction to within a few ulps), unit and non-unit directions, segments; curve x circle; point triples in general position and exactly collinear; arcs with any centre, start angle in +-4pi and sweep in [-2pi, 2pi] incl. +-2pi, multiples of pi/2 and +-1e-9. Oracle: the defining constraints (on both objects, count by configuration, perpendicular radius, documented left/right order, bounding box contains and touches). Non-trivial: neither circle centred at the origin and r/d farther than 0.05 from 1/sqrt 2. Distinct = distinct canonical JSON."
     }
     fn cases(t: Tier) -> u32 {
         t.pick(2_000_000, 50_000_000)
     }
     fn expected_labels() -> Vec<&'static str> {
-        vec!["pair_far", "pair_just_outside", "pair_touch_exact", "pair_crossing", "pair_inner_touch_exact", "pair_nested", "pair_concentric", "tangent_point", "line_0", "line_1", "line_2", "segment", "curve_circle", "project", "arc3", "arc3_collinear", "arc_box", "outer_tangents"]
+        vec!["pair_far", "pair_just_outside", "pair_touch_exact", "pair_crossing", "pair_inner_touch_exact", "pair_nested", "pair_concentric", "tangent_point", "line_0", "line_1", "line_2", "line_tangent_generic", "segment", "curve_circle", "project", "arc3", "arc3_collinear", "arc_box", "outer_tangents"]
     }
     fn strategy(_t: Tier) -> BoxedStrategy<Case> {
         prop_oneof![
             5 => (pair_kind(), prop::sample::select(vec![0.125, 0.25, 0.5, 1.0, 2.0, 8.0]), 1u8..6, 1u8..6, unif(0.02, 0.98), 0u8..4, (-100i32..=100, -100i32..=100), prop::option::of(iso2(1e3)))
                 .prop_map(|(kind, k, a, b, f, quarter, shift, pose)| Case::Pair { kind, k, a, b, f, quarter, shift, pose }),
             2 => (p2(100.0), logu(-1.0, 2.0), unif(-6.0, 3.0), unif(-PI, PI)).prop_map(|(c, r, ratio_exp, ang)| Case::TangentPoint { c, r, ratio_exp, ang }),
-            3 => (p2(100.0), logu(-1.0, 2.0), prop_oneof![unif(0.0, 2.0), Just(1.0), Just(0.0)], unif(-PI, PI), logu(-2.0, 2.0), unif(-3.0, 3.0), (unif(-3.0, 3.0), unif(0.1, 4.0)), prop::bool::weighted(0.2))
-                .prop_map(|(c, r, dist_rel, dir_ang, dir_len, along, seg, exact_tangent)| Case::Line { c, r, dist_rel, dir_ang, dir_len, along, seg, exact_tangent }),
+            3 => (p2(100.0), logu(-1.0, 2.0), prop_oneof![unif(0.0, 2.0), Just(1.0), Just(0.0)], unif(-PI, PI), logu(-2.0, 2.0), unif(-3.0, 3.0), (unif(-3.0, 3.0), unif(0.1, 4.0)), prop::bool::weighted(0.2), prop::option::weighted(0.25, unif(-PI, PI)))
+                .prop_map(|(c, r, dist_rel, dir_ang, dir_len, along, seg, exact_tangent, tangent_at)| Case::Line { c, r, dist_rel, dir_ang, dir_len, along, seg, exact_tangent, tangent_at }),
             1 => (curve2_spec(3, 30, 0.0, 1.0, false), p2(1.0), unif(0.1, 1.5)).prop_map(|(spec, c, r)| Case::CurveCircle { spec, c, r }),
             1 => (p2(100.0), logu(-1.0, 2.0), p2(150.0)).prop_map(|(c, r, p)| Case::Project { c, r, p }),
             2 => (p2(50.0), p2(50.0), p2(50.0), prop::bool::weighted(0.15), prop_oneof![2 => Just(1.0), 3 => logu(-5.0, 2.0)]).prop_map(|(p0, p1, p2, collinear, scale)| Case::Arc3 { p0, p1, p2, collinear, scale }),
@@ -85,7 +85,7 @@ impl Property for C11 {
         match case {
             Case::Pair { kind, k, a, b, f, quarter, shift, pose } => pair(*kind, *k, *a, *b, *f, *quarter, *shift, pose),
             Case::TangentPoint { c, r, ratio_exp, ang } => tangent_point(c, *r, *ratio_exp, *ang),
-            Case::Line { c, r, dist_rel, dir_ang, dir_len, along, seg, exact_tangent } => line(c, *r, *dist_rel, *dir_ang, *dir_len, *along, *seg, *exact_tangent),
+            Case::Line { c, r, dist_rel, dir_ang, dir_len, along, seg, exact_tangent, tangent_at } => line(c, *r, *dist_rel, *dir_ang, *dir_len, *along, *seg, *exact_tangent, *tangent_at),
             Case::CurveCircle { spec, c, r } => curve_circle(spec, c, *r),
             Case::Project { c, r, p } => project(c, *r, p),
             Case::Arc3 { p0, p1, p2, collinear, scale } => arc3(p0, p1, p2, *collinear, *scale),
@@ -312,7 +312,8 @@ fn tangent_point(c: &P2, r: f64, ratio_exp: f64, ang: f64) -> Verdict {
 }
 
 #[allow(clippy::too_many_arguments)]
-fn line(c: &P2, r: f64, dist_rel: f64, dir_ang: f64, dir_len: f64, along: f64, seg: (f64, f64), exact_tangent: bool) -> Verdict {
+#[allow(clippy::too_many_arguments)]
+fn line(c: &P2, r: f64, dist_rel: f64, dir_ang: f64, dir_len: f64, along: f64, seg: (f64, f64), exact_tangent: bool, tangent_at: Option<f64>) -> Verdict {
     let mut cx = Ctx::new();
     let (c0, r, u, n, dist, exact) = if exact_tangent {
         // lattice construction: horizontal/vertical line at exactly one radius from a lattice centre
@@ -320,6 +321,11 @@ fn line(c: &P2, r: f64, dist_rel: f64, dir_ang: f64, dir_len: f64, along: f64, s
         let r = ((r * 8.0).round() / 8.0).max(0.125);
         let (u, n) = if dir_ang > 0.0 { (Vector2::new(1.0, 0.0), Vector2::new(0.0, 1.0)) } else { (Vector2::new(0.0, -1.0), Vector2::new(1.0, 0.0)) };
         (c0, r, u, n, r, true)
+    } else if let Some(th) = tangent_at {
+        // tangent in a general direction: through the point of the circle at angle th, along the perpendicular of the
+        // radius there.  The centre-line distance is r up to a few ulps of the coordinates.
+        let n = Vector2::new(th.cos(), th.sin());
+        (pt2(c), r, Vector2::new(-n.y, n.x), n, r, false)
     } else {
         let u = Vector2::new(dir_ang.cos(), dir_ang.sin());
         (pt2(c), r, u, Vector2::new(-u.y, u.x), dist_rel * r, false)
@@ -342,7 +348,11 @@ fn line(c: &P2, r: f64, dist_rel: f64, dir_ang: f64, dir_len: f64, along: f64, s
         ensure!(circle.distance_to(&p).abs() <= slack, "C11/intersection_line_circle/not_on_circle", "line.at({t:e}) is {:e} off the circle (centre-line distance {dist:e}, r={r:e}, |dir|={dir_len:e})", circle.distance_to(&p));
     }
     let band = 1e-9 * scale;
-    let expected = if exact { Some(1) } else if dist > r + band { Some(0) } else if dist < r - band { Some(2) } else { None };
+    // a line built tangent in a general direction is at |d - r| <= a few ulps of the coordinates; the library counts
+    // |d - r| < 1e-10 (absolute) as tangent, so for coordinates below 1e3 (64 ulp < 1e-11) exactly one point is due
+    let generic_tangent = tangent_at.is_some() && !exact && 64.0 * ulp(scale) < 1e-11;
+    cx.label_if(generic_tangent, "line_tangent_generic");
+    let expected = if exact || generic_tangent { Some(1) } else if dist > r + band { Some(0) } else if dist < r - band { Some(2) } else { None };
     if let Some(e) = expected {
         ensure!(ts.len() == e, "C11/intersection_line_circle/count", "{} intersections for a line at distance {dist:e} from the centre of a circle of radius {r:e}", ts.len());
         cx.label(match e {
